@@ -72,8 +72,8 @@ theorem convex_combo_lower (a b wf wb : K) (ha : 0 < a) (hb : 0 < b) (h : wf + w
   nlinarith [sq_nonneg (a * wf - b * (1 - wf))]
 
 /-- **C06 (`tmpw_var_lower ≤ tmpw_var`).** `a`, `b`: the parts of `tmpf_var`, `tmpb_var` that come from the intensity
-noise only; `P`: the parameter part of `tmpw_var`, which is a quadratic form of the positive semi-definite `p_cov` when the
-term list is complete (no splices, `C05_tmpw_is_propagation_partial`). -/
+noise only; `P`: the parameter part of `tmpw_var`, which is a quadratic form of the positive semi-definite `p_cov`
+(`C05_tmpw_is_propagation`). -/
 theorem C06_lower_le_var (a b vf vb P : K) (ha : 0 < a) (hb : 0 < b) (hf : 0 < vf) (hvb : 0 < vb) (hP : 0 ≤ P) :
     approx a b ≤ (weightF vf vb) ^ 2 * a + (weightB vf vb) ^ 2 * b + P := by
   have := convex_combo_lower a b (weightF vf vb) (weightB vf vb) ha hb (weights_sum_one vf vb hf hvb)
@@ -89,6 +89,28 @@ theorem C06_channel_var_positive (J : Derivs K) (vst vast : K) (c : Covs K)
   have h1 : 0 < J.st ^ 2 * vst := mul_pos (by positivity) hvst
   have h2 : 0 ≤ J.ast ^ 2 * vast := mul_nonneg (sq_nonneg _) hvast
   linarith
+
+/-- **C06 (`tmpw_var_lower ≤ tmpw_var`, on the code's term list).** With the inverse-variance weights of any positive
+`tmpf_var`, `tmpb_var`, the 25-term `tmpw_var` is at least the noise-only bound, provided the parameter covariance is
+positive semi-definite on the six parameter groups. -/
+theorem C06_lower_le_tmpw_var (vf vb : K) (F B : Derivs K) (vst vast vrst vrast : K) (c : CovsW K)
+    (hf : 0 < vf) (hb : 0 < vb) (hst : 0 < vst) (hast : 0 ≤ vast) (hrst : 0 < vrst) (hrast : 0 ≤ vrast)
+    (hF : F.st ≠ 0) (hB : B.st ≠ 0)
+    (hpsd : 0 ≤ quad (jacW (weightF vf vb) (weightB vf vb) F B) (cov6 c)) :
+    approx (F.st ^ 2 * vst + F.ast ^ 2 * vast) (B.st ^ 2 * vrst + B.ast ^ 2 * vrast)
+      ≤ (termsW (weightF vf vb) (weightB vf vb) F B vst vast vrst vrast c).sum := by
+  rw [C05_tmpw_is_propagation]
+  have ha : 0 < F.st ^ 2 * vst + F.ast ^ 2 * vast := by
+    have h1 : 0 < F.st ^ 2 * vst := mul_pos (by positivity) hst
+    have h2 : 0 ≤ F.ast ^ 2 * vast := mul_nonneg (sq_nonneg _) hast
+    linarith
+  have hb' : 0 < B.st ^ 2 * vrst + B.ast ^ 2 * vrast := by
+    have h1 : 0 < B.st ^ 2 * vrst := mul_pos (by positivity) hrst
+    have h2 : 0 ≤ B.ast ^ 2 * vrast := mul_nonneg (sq_nonneg _) hrast
+    linarith
+  have := C06_lower_le_var _ _ vf vb _ ha hb' hf hb hpsd
+  calc _ ≤ _ := this
+    _ = _ := by ring
 
 /-! ### Non-vacuity -/
 example : approx (2 : ℚ) 3 = 6 / 5 ∧ approx (2 : ℚ) 3 ≤ min 2 3 := by norm_num [approx]
